@@ -204,6 +204,14 @@ def directed_queries():
         for a in args:
             toks += [Tok("punct", ",", glue="L"), Tok("lit", a)]
         out.append(toks + [Tok("close", ")", glue="L")] + tail)
+        # the same call where a sort key or a grouping key starts (a name with several spellings is one function there too)
+        call = toks + [Tok("close", ")", glue="L")]
+        out.append([Tok("col", "name"), Tok("kw", "from"), Tok("path", "t"), Tok("kw", "order"), Tok("kw", "by")] + call
+                   + [Tok("comma", ",", glue="L"), Tok("col", "name"), Tok("kw", "into"), Tok("fmt", "list")])
+        out.append([Tok("agg", "count", group_of(AGG_GROUPS, "count"), "R"), Tok("open", "(", glue="LR"), Tok("lit", "*"), Tok("close", ")", glue="L"),
+                    Tok("kw", "from"), Tok("path", "t"), Tok("kw", "group"), Tok("kw", "by")] + call
+                   # group rows come in no particular order: sorted by the only column, equal counts print equal rows
+                   + [Tok("kw", "order"), Tok("kw", "by"), Tok("num", "1"), Tok("kw", "into"), Tok("fmt", "list")])
     for g in AGG_GROUPS:
         out.append([Tok("agg", g[0], g, "R"), Tok("open", "(", glue="LR"), Tok("col", "size"), Tok("close", ")", glue="L")] + tail)
     out.append([Tok("agg", "count", group_of(AGG_GROUPS, "count"), "R"), Tok("open", "(", glue="LR"), Tok("lit", "*"), Tok("close", ")", glue="L")] + tail)
@@ -397,6 +405,17 @@ def variants(rng, toks, simple_cols, thorough):
             # add an explicit asc after the first key that has no direction
             oi = max(i for i, t in enumerate(toks) if t.kind == "kw" and t.text == "by")
             j = oi + 1
+            if j < len(toks) and toks[j].kind in ("fn", "agg", "noargfn", "open"):
+                # the key is a call: its end is the bracket that closes it
+                depth = 0
+                for k in range(j, len(toks)):
+                    if toks[k].kind == "open":
+                        depth += 1
+                    elif toks[k].kind == "close":
+                        depth -= 1
+                        if depth == 0:
+                            j = k
+                            break
             if j < len(toks) and (j + 1 >= len(toks) or toks[j + 1].kind != "dir"):
                 tt = toks[:j + 1] + [Tok("dir", "asc")] + toks[j + 1:]
                 yield "optional:explicit-asc", [" ".join(render(tt))]
